@@ -254,10 +254,16 @@ func runCk(f []string) (o core.Outcome) {
 	}
 	name, err := core.UnHex(f[1])
 	cks, ok := parsePairs(f[2])
-	if err != nil || !ok || name == "" {
+	if err != nil || !ok {
 		return bad
 	}
-	sel, closeFn, err := loadPolicy("cookie", map[string]any{"name": name, "secret": cookieSecret})
+	cfg := map[string]any{"secret": cookieSecret}
+	if name != "" {
+		cfg["name"] = name
+	} else {
+		name = "lb" // what the harness expects Provision to default to
+	}
+	sel, closeFn, err := loadPolicy("cookie", cfg)
 	if err != nil {
 		return core.Outcome{Impl: "err:provision", Tags: []string{"err:provision"}}
 	}
@@ -383,6 +389,9 @@ func genKey(rng *core.Rand) string {
 func genCk(rng *core.Rand) string {
 	names := []string{"lb", "lb", "sid", "LB"}
 	name := rng.Pick(names)
+	if rng.Chance(1, 5) {
+		name = "" // no name configured
+	}
 	var cks []hexPair
 	for i := rng.Intn(4); i > 0; i-- {
 		v := "t" + strconv.Itoa(rng.Intn(nProbe))
